@@ -577,7 +577,7 @@ prop('C07',
 # ----------------------------------------------------------------------- C05
 prop('C05',
      'seq: random op strings (put, putchar when room is certain, get, empty; three fill biases) for every buf_len in '
-     '{2..9,16,255,256,257} and every start index, exactly-sized heap storage; co: producer and consumer "threads" '
+     '{2..9,16,255,256,257,1000,65535,65536,65537} and every start index (large rings: also started within 40 of the wrap), exactly-sized heap storage; co: producer and consumer "threads" '
      '(4-44 bytes, put and putchar vs get and empty) for buf_len 2..5 and every start index under random '
      '(p=0.02/0.1/0.5) and PCT (d=1..3) schedules with a switch possible at every instrumented access; isr: 11 '
      'scenarios (empty / one byte / one free slot / full, across the wrap) x buf_len 2..5 x every start index with an '
